@@ -879,4 +879,26 @@ def tailRun (env : MEnv) (sref : Val) (kind : String) (fuel : Nat) (st : St) (re
   | (st1, .error e) => (st1, .error e)
   | (st1, .ok fresh) => assignAux env false sref (.factory kind) fuel st1 fresh rem (.val v)
 
+/-- the re-spelling table `. ↦ [`, `P ↦ [` is the reading side's first-step magic -/
+theorem respellFirst_eq_sMagic (steps : List Step) :
+    respellFirst [(".", "["), ("P", "[")] steps = sMagic steps := by
+  cases steps with
+  | nil => rfl
+  | cons s r =>
+    obtain ⟨op, arg⟩ := s
+    simp only [respellFirst, sMagic, List.find?_cons, List.find?_nil]
+    by_cases h1 : op = "."
+    · subst h1; simp
+    · by_cases h2 : op = "P"
+      · subst h2; simp
+      · have e1 : ("." == op) = false := by simpa using fun e => h1 e.symm
+        have e2 : ("P" == op) = false := by simpa using fun e => h2 e.symm
+        simp [e1, e2, h1, h2]
+
+theorem initPath_eq_readSteps (sroot : Bool) (steps : List Step) :
+    initPath [(".", "["), ("P", "[")] sroot steps = readSteps sroot steps := by
+  cases sroot with
+  | false => rfl
+  | true => simp only [initPath, readSteps, if_true, respellFirst_eq_sMagic]
+
 end Glom.C11
